@@ -41,10 +41,12 @@
    Config.FileSize (after the 0.8 factor) and realFileSizeCap in units.
 
    The property (C03) on this spec: Sorted, NonOverlapping, WithinFile (invariants);
-   OpenConflictRule, CommitConflictRule, BackwardsFails, FailedOpsChangeNothing,
-   OthersUnchanged (action properties).  SearchAgrees / InsertAgrees state that the
-   binary search and the insert fast paths compute the overlap RELATION in every
-   reachable index.
+   OpenConflictRule, CommitConflictRule, BackwardsFails, EmptyCommitFails,
+   FailedOpsChangeNothing, OthersUnchanged (action properties).  SearchAgreesOn /
+   InsertAgreesOn / UpdateAgreesOn / NextStartAgreesOn state that the transcribed
+   binary search, the insert fast paths, update's neighbour test and getGE compute the
+   overlap RELATION; IndexSearchMC.tla checks them on every sorted disjoint index.
+   The exhaustive run uses VIEW View (res/op are outputs, never read by an action).
 
    Named deviation of the code as written (DESIGN 2.5):
      Window_BackwardsAtRollover - validateCommitRange skips the "not before the
